@@ -96,6 +96,7 @@ def run(ctx):
              "CCBr.N.O>>CCO", "CC(=O)Cl.N.O>>CC(=O)O", "CCOC(C)=O.[Na+].[OH-].Cl>>CCO.CC(=O)O",
              # an excess reagent written identically twice on one side and once on the other (string-identical copies in the base,
              # differently spelled copies in the variants)
+             "c1cc[nH]c1.CC(=O)Cl>>CC(=O)n1cccc1", "c1ccc2[nH]ccc2c1.CC(=O)Cl>>CC(=O)n1ccc2ccccc21", "O=c1cccc[nH]1.CC(=O)Cl>>CC(=O)n1ccccc1=O", "Oc1ccccc1.CC(=O)Cl>>CC(=O)Oc1ccccc1",
              "CCO.CCO.CC(=O)Cl>>CC(=O)OCC.CCO.Cl", "Nc1ccccc1.Nc1ccccc1.CC(=O)Cl>>CC(=O)Nc1ccccc1.Nc1ccccc1", "CC(=O)O.CC(=O)O.CCO>>CC(=O)OCC.CC(=O)O",
              "CCO.CCO.CCO.CC(=O)Cl>>CC(=O)OCC.CCO", "CN.CN.CCBr>>CCNC.CN", "c1ccccc1.c1ccccc1.CC(=O)Cl>>CC(=O)c1ccccc1.c1ccccc1.Cl"]
     import gen_data
@@ -133,7 +134,14 @@ def run(ctx):
     rows = []
     for b in vb:
         if len(b["rows"]) != len(b["inputs"]):
-            rows += [None] * len(b["inputs"])
+            # some row of this batch was dropped: every input is run again alone; a spelling that has no row at all (while the base
+            # has one) is a changed verdict
+            for v in b["inputs"]:
+                sb = pipe.run_batch([v])
+                if len(sb["rows"]) == 1:
+                    rows.append((sb["rows"][0], sb))
+                else:
+                    rows.append(("NOROW", sb))
         else:
             rows += list(zip(b["rows"], [b] * len(b["rows"])))
     base_rows = {inp: r for inp, r in bases}
@@ -147,6 +155,12 @@ def run(ctx):
         if rr is None or kind == "identity":
             continue
         r2, b2 = rr
+        if r2 == "NOROW":
+            r1 = base_rows.get(inp)
+            if r1 is not None and r1["solved_by"] in ("input-balanced", "rule-based"):
+                ctx.evaluations += 1
+                ctx.fail("verdict-changed-by-spelling", {"base": inp, "variant_kind": kind, "inputs": [v]}, {"base_row": r1, "variant_row": None, "note": "the variant spelling has no result row at all"})
+            continue
         r1 = base_rows.get(inp)
         if r1 is not None and r1["solved_by"] not in ("input-balanced", "rule-based") and r2["solved_by"] in ("input-balanced", "rule-based"):
             ctx.evaluations += 1
